@@ -1,0 +1,162 @@
+//! Verification hooks (cargo feature `verif-hooks`, off by default).
+//!
+//! Nothing in here changes what the library computes. The hooks give an external
+//! monitor three things: logical step counters with an optional budget (`tick`), a log of
+//! which rayon worker ran which parallel work item and in which order, with optional
+//! seeded delays (`par_item`), and the snapshot types returned by `Graph::verif_snapshot`.
+
+use std::cell::RefCell;
+use std::collections::HashMap;
+use std::sync::atomic::{AtomicBool, AtomicU64, Ordering};
+use std::sync::Mutex;
+
+/// Payload used to unwind when a tick budget is exceeded.
+#[derive(Debug, Clone)]
+pub struct BudgetExceeded {
+    pub name: &'static str,
+    pub count: u64,
+    pub budget: u64,
+}
+
+thread_local! {
+    static TICKS: RefCell<HashMap<&'static str, u64>> = RefCell::new(HashMap::new());
+    static BUDGETS: RefCell<HashMap<&'static str, u64>> = RefCell::new(HashMap::new());
+}
+
+/// Counts one logical step of the loop called `name` on the current thread. If a budget was
+/// armed for `name` with `set_budget` and the count exceeds it, unwinds with a
+/// `BudgetExceeded` payload (without invoking the panic hook).
+pub fn tick(name: &'static str) {
+    let count = TICKS.with(|t| {
+        let mut t = t.borrow_mut();
+        let c = t.entry(name).or_insert(0);
+        *c += 1;
+        *c
+    });
+    let budget = BUDGETS.with(|b| b.borrow().get(name).copied());
+    if let Some(budget) = budget {
+        if count > budget {
+            std::panic::resume_unwind(Box::new(BudgetExceeded {
+                name,
+                count,
+                budget,
+            }));
+        }
+    }
+}
+
+/// Arms (Some) or disarms (None) the budget of the loop called `name` for the current thread.
+pub fn set_budget(name: &'static str, budget: Option<u64>) {
+    BUDGETS.with(|b| {
+        let mut b = b.borrow_mut();
+        match budget {
+            Some(v) => {
+                b.insert(name, v);
+            }
+            None => {
+                b.remove(name);
+            }
+        }
+    });
+}
+
+/// Resets the tick counter of `name` on the current thread and returns its previous value.
+pub fn take_ticks(name: &'static str) -> u64 {
+    TICKS.with(|t| t.borrow_mut().remove(name).unwrap_or(0))
+}
+
+/// One parallel work item as seen by `par_item`.
+#[derive(Debug, Clone)]
+pub struct ParEvent {
+    pub seq: u64,
+    pub tag: &'static str,
+    pub item: usize,
+    pub worker: Option<usize>,
+}
+
+static PAR_LOG_ON: AtomicBool = AtomicBool::new(false);
+static PAR_DELAY_SEED: AtomicU64 = AtomicU64::new(0);
+static PAR_DELAY_MAX_US: AtomicU64 = AtomicU64::new(0);
+static PAR_SEQ: AtomicU64 = AtomicU64::new(0);
+static PAR_LOG: Mutex<Vec<ParEvent>> = Mutex::new(Vec::new());
+
+/// Turns logging of parallel work items on or off and clears the log.
+pub fn par_log_start(on: bool) {
+    let mut log = PAR_LOG.lock().unwrap_or_else(|e| e.into_inner());
+    log.clear();
+    PAR_SEQ.store(0, Ordering::SeqCst);
+    PAR_LOG_ON.store(on, Ordering::SeqCst);
+}
+
+/// Returns and clears the log of parallel work items.
+pub fn par_log_take() -> Vec<ParEvent> {
+    let mut log = PAR_LOG.lock().unwrap_or_else(|e| e.into_inner());
+    std::mem::take(&mut *log)
+}
+
+/// Sets the seeded pseudo-random delay injected at the start of each parallel work item
+/// (`max_us` = 0 turns delays off).
+pub fn par_set_delay(seed: u64, max_us: u64) {
+    PAR_DELAY_SEED.store(seed, Ordering::SeqCst);
+    PAR_DELAY_MAX_US.store(max_us, Ordering::SeqCst);
+}
+
+fn mix(mut z: u64) -> u64 {
+    z = z.wrapping_add(0x9E37_79B9_7F4A_7C15);
+    z = (z ^ (z >> 30)).wrapping_mul(0xBF58_476D_1CE4_E5B9);
+    z = (z ^ (z >> 27)).wrapping_mul(0x94D0_49BB_1331_11EB);
+    z ^ (z >> 31)
+}
+
+/// Called as the first statement of each rayon work item. The closures that call it hold no
+/// lock and touch no shared mutable state, so a delay here is indistinguishable from an OS
+/// pre-emption at the same point.
+pub fn par_item(tag: &'static str, item: usize) {
+    if PAR_LOG_ON.load(Ordering::Relaxed) {
+        let seq = PAR_SEQ.fetch_add(1, Ordering::SeqCst);
+        let ev = ParEvent {
+            seq,
+            tag,
+            item,
+            worker: rayon::current_thread_index(),
+        };
+        PAR_LOG.lock().unwrap_or_else(|e| e.into_inner()).push(ev);
+    }
+    let max_us = PAR_DELAY_MAX_US.load(Ordering::Relaxed);
+    if max_us > 0 {
+        let seed = PAR_DELAY_SEED.load(Ordering::Relaxed);
+        let r = mix(seed ^ mix(item as u64 ^ ((tag.len() as u64) << 32)));
+        let us = r % (max_us + 1);
+        if r & 0x100 != 0 {
+            std::thread::yield_now();
+        }
+        if us > 0 {
+            std::thread::sleep(std::time::Duration::from_micros(us));
+        }
+    }
+}
+
+/// A stored edge as plain data.
+#[derive(Debug, Clone)]
+pub struct SnapEdge<T, A> {
+    pub u: T,
+    pub v: T,
+    pub weight: f64,
+    pub attributes: Option<A>,
+}
+
+/// Read-only copy of every private index of a `Graph`, as plain vectors.
+#[derive(Debug, Clone)]
+pub struct GraphSnapshot<T, A> {
+    pub nodes_vec: Vec<(T, Option<A>)>,
+    pub nodes_map: Vec<(T, usize)>,
+    pub nodes_map_rev: Vec<(usize, T, Option<A>)>,
+    pub edges: Vec<((T, T), Vec<SnapEdge<T, A>>)>,
+    pub edges_map: Vec<((usize, usize), Vec<SnapEdge<T, A>>)>,
+    pub successors: Vec<(T, Vec<T>)>,
+    pub successors_map: Vec<(usize, Vec<usize>)>,
+    pub successors_vec: Vec<Vec<(usize, f64)>>,
+    pub predecessors: Vec<(T, Vec<T>)>,
+    pub predecessors_map: Vec<(usize, Vec<usize>)>,
+    pub predecessors_vec: Vec<Vec<(usize, f64)>>,
+}
